@@ -463,16 +463,29 @@ func doRun(j *sup.Job, res *sup.Result) {
 			wg.Wait()
 		}
 		go re.HeartbeatReceiver(time.Hour, cancel)
-		re.StartTransitions(procs)
+		// started from a goroutine of its own: if starting the processes itself gets stuck in
+		// interpreter code, the run is judged (by the goroutine dump) instead of hanging the worker
+		var started atomic.Bool
+		go func() {
+			re.StartTransitions(procs)
+			started.Store(true)
+		}()
 
 		wd := time.Duration(j.WatchdogMs) * time.Millisecond
 		if wd <= 0 {
 			wd = 20 * time.Second
 		}
+		var lastEv uint64
+		lastEvAt, lastDump := time.Now(), time.Now()
 		for {
-			time.Sleep(200 * time.Microsecond)
+			// the table is scanned under the hooks' lock: with thousands of live processes the
+			// scan is spaced out so that it does not starve them
+			theSink.mu.Lock()
+			nLive := len(rs.tab)
+			theSink.mu.Unlock()
+			time.Sleep(200*time.Microsecond + time.Duration(nLive)*4*time.Microsecond)
 			ok, ev := theSink.stable(rs)
-			if ok {
+			if ok && started.Load() {
 				time.Sleep(2 * time.Millisecond)
 				ok2, ev2 := theSink.stable(rs)
 				if ok2 && ev2 == ev {
@@ -482,10 +495,32 @@ func doRun(j *sup.Job, res *sup.Result) {
 			}
 			theSink.mu.Lock()
 			over := rs.overrun
+			evNow := rs.events
 			theSink.mu.Unlock()
 			if over {
 				rr.Overrun = true
 				break
+			}
+			// second opinion, independent of the hooks: when the hook table has shown no event for
+			// 300 ms, look at the goroutines themselves; if every goroutine of the interpreter is
+			// parked in a channel operation (twice, 30 ms apart, with no event in between) the
+			// run is over even though the table still lists somebody as running (a blocking
+			// operation the hooks do not know about)
+			if evNow != lastEv {
+				lastEv, lastEvAt = evNow, time.Now()
+			} else if time.Since(lastEvAt) > 300*time.Millisecond && time.Since(lastDump) > 250*time.Millisecond {
+				lastDump = time.Now()
+				if ok, polling := allParked(); ok && (!polling || time.Since(lastEvAt) > 3*time.Second) {
+					time.Sleep(30 * time.Millisecond)
+					theSink.mu.Lock()
+					same := rs.events == evNow
+					theSink.mu.Unlock()
+					if ok2, _ := allParked(); same && ok2 {
+						rr.Quiescent = true
+						rr.ParkedOutsideHooks = true
+						break
+					}
+				}
 			}
 			if time.Since(t0) > wd {
 				rr.Watchdog = true
@@ -674,4 +709,40 @@ func takeBeat(re *process.RuntimeEnvironment) (expiryUs, timeoutUs, n int64, exp
 	delete(beats.timeout, re)
 	delete(beats.beats, re)
 	return
+}
+
+// allParked reports whether every goroutine that is executing interpreter code
+// (grits/process frames, the heartbeat receiver and the monitor excepted) is parked in a
+// channel send, a channel receive or a select, or asleep in interpreter code (not in the
+// harness' own perturbation sleeps): polling is true if some goroutine is asleep like that
+// (a wait loop that fires no rule). It reads the runtime's own goroutine dump.
+func allParked() (parked, polling bool) {
+	buf := make([]byte, 1<<20)
+	for {
+		n := runtime.Stack(buf, true)
+		if n < len(buf) {
+			buf = buf[:n]
+			break
+		}
+		buf = make([]byte, 2*len(buf))
+	}
+	seen := false
+	for _, g := range strings.Split(string(buf), "\n\n") {
+		if !strings.Contains(g, "grits/process.") || strings.Contains(g, "HeartbeatReceiver") || strings.Contains(g, "monitorLoop") || strings.Contains(g, "main.allParked") {
+			continue
+		}
+		seen = true
+		head := g
+		if i := strings.IndexByte(g, '\n'); i >= 0 {
+			head = g[:i]
+		}
+		switch {
+		case strings.Contains(head, "[chan send"), strings.Contains(head, "[chan receive"), strings.Contains(head, "[select"):
+		case strings.Contains(head, "[sleep") && !strings.Contains(g, "main.(*sink)") && !strings.Contains(g, "main.(*raceSink)"):
+			polling = true
+		default:
+			return false, false
+		}
+	}
+	return seen, polling
 }
